@@ -35,7 +35,7 @@ def loop(invariant=(), decreases=(), index="_i", types=None, modifies=None):
 class Contract:
     def __init__(self, name, params=None, requires=(), ensures=(), raises=(), returns=None, loops=None, modifies=None,
                  ensures_raise=(), props=(), verify_only=False, site_requires=None, status="proved", cases=None, note="", reify=None,
-                 max_paths=400, target=None):
+                 max_paths=400, target=None, elements_are_keys=False):
         self.name = name
         self.params = params or {}
         self.requires = [requires] if isinstance(requires, str) else list(requires)
@@ -58,6 +58,7 @@ class Contract:
         self.note = note
         self.reify = reify
         self.max_paths = max_paths
+        self.elements_are_keys = elements_are_keys
         self.target = target or name  # the function the contract is about (several contracts may share one)
         self.module_file = None
 
@@ -76,7 +77,8 @@ class Lemma:
 
 
 class ClassDecl:
-    def __init__(self, name, fields, inv=None, make=None, gen=None):
+    def __init__(self, name, fields, inv=None, make=None, gen=None, ghost=None):
+        self.ghost = ghost or {}  # ghost field -> native function(obj) computing it (replay / search only)
         self.name = name
         self.fields = fields
         self.inv = inv
@@ -115,8 +117,8 @@ class Registry:
         self.lemmas[name] = l
         return l
 
-    def declare_class(self, name, inv=None, make=None, gen=None, **fields):
-        self.classes[name] = ClassDecl(name, fields, inv, make, gen)
+    def declare_class(self, name, inv=None, make=None, gen=None, ghost=None, **fields):
+        self.classes[name] = ClassDecl(name, fields, inv, make, gen, ghost)
 
     def spec(self, name, smt, native, doc=""):
         self.spec_functions[name] = SpecFn(name, smt, native, doc)
@@ -334,6 +336,8 @@ def _run_one(reg, I: Interp, c: Contract, fn, info, case):
         result = I.run_function(fn, args, kwargs, ghost={"old_" + k: v for k, v in pre_locals.items()})
     except PyExc as e:
         exc = e.cls
+        pre.locals.update(I.ghost)
+        fr.locals.update(I.ghost)
         conds = []
         for exc_name, cond, mode in c.raises:
             k = reg.resolve(exc_name)
@@ -348,6 +352,8 @@ def _run_one(reg, I: Interp, c: Contract, fn, info, case):
         I.prove_clauses(c.ensures_raise, fr, f"{tag}.ensures_raise")
         return
     fr.locals["result"] = result
+    pre.locals.update(I.ghost)
+    fr.locals.update(I.ghost)
     for exc_name, cond, mode in c.raises:
         if mode == "iff":
             cz = I.clause_formula(cond, pre, -1)
